@@ -75,31 +75,28 @@ fn compare_store(env: &Env, st: &Store, m: &MStore, shards: usize) -> Option<Val
     if stats.len() != shards {
         return Some(json!({"what": "shard_stats length", "stats": stats}));
     }
-    let mut expect = vec![0usize; shards];
-    for id in m.tracks.keys() {
-        expect[(*id as usize) % shards] += 1;
+    // "found in the shard determined by its id": which shard that is, is the store's business (get_store(id) hands it out);
+    // what is required is that every track of the model sits there, unchanged, and that the per-shard counts add up to the
+    // number of stored tracks (so the store holds nothing else)
+    if stats.iter().sum::<usize>() != m.tracks.len() {
+        return Some(json!({"what": "per-shard counts do not sum to the number of stored tracks", "lib": stats, "model_tracks": m.tracks.len()}));
     }
-    if stats != expect {
-        return Some(json!({"what": "per-shard counts differ from the model (or a track sits in the wrong shard)", "lib": stats, "model": expect}));
-    }
-    for k in 0..shards {
-        let g = st.get_store(k);
-        for (id, t) in g.iter() {
-            if (*id as usize) % shards != k {
-                return Some(json!({"what": "track stored in a shard other than id % n", "id": id, "shard": k}));
-            }
-            if t.get_track_id() != *id {
-                return Some(json!({"what": "key differs from track id", "key": id, "track_id": t.get_track_id()}));
-            }
-            match m.tracks.get(id) {
-                None => return Some(json!({"what": "stored track unknown to the model", "id": id})),
-                Some(mt) => {
-                    let s = snap(t);
-                    if s != mt.snap() {
-                        return Some(json!({"what": "stored track differs from the model", "id": id, "lib": format!("{:?}", s), "model": format!("{:?}", mt.snap())}));
-                    }
+    for (id, mt) in m.tracks.iter() {
+        let g = st.get_store(*id as usize);
+        match g.get(id) {
+            None => return Some(json!({"what": "stored track not found in the shard determined by its id", "id": id})),
+            Some(t) => {
+                if t.get_track_id() != *id {
+                    return Some(json!({"what": "key differs from track id", "key": id, "track_id": t.get_track_id()}));
+                }
+                let s = snap(t);
+                if s != mt.snap() {
+                    return Some(json!({"what": "stored track differs from the model", "id": id, "lib": format!("{:?}", s), "model": format!("{:?}", mt.snap())}));
                 }
             }
+        }
+        if let Some((other, _)) = g.iter().find(|(k, _)| !m.tracks.contains_key(*k)) {
+            return Some(json!({"what": "stored track unknown to the model", "id": other}));
         }
     }
     let _ = env;
@@ -481,7 +478,7 @@ fn main() {
     let env = Env { plan: FaultPlan::new(), mplan: FaultPlan::new(), notif: CountingNotifier::default(), cap: 4 };
     let alpha = small_alphabet();
     let a = alpha.len() as u64;
-    rep.note("rule", json!(format!("two workloads. (1) exhaustive: every operation sequence of length <= L over a small alphabet of {} operations (ids 1..3, classes 0..1, two observation values, poison observations that make optimize fail, owned / external / non-blocking merges incl. same-track and missing ids, fetch, lookup, find_usable, clear), shards 1 and 2; L = 2 in the quick tier plus a random sample of length-3 sequences, L = 3 complete in the thorough tier. (2) random sequences of 50..400 operations over 8 ids (in half of the sequences mapped injectively onto wide u64 ids: 2^32+x, x<<32|x, hashed, u64::MAX-x, x<<33), 3 classes, shards 1..5. After EVERY operation the return value is compared with a sequential model (a map id -> track whose callbacks are the workload's own) and every shard's contents are read through get_store() and compared track by track (attributes, observations per class, merge history, metric state), with id % n placement and per-shard counts. add() on a missing id is additionally compared with new_track(id)...build() + add_track in a scratch store. In the random sequences every ~40th step four threads issue lookup (all query kinds) / shard_stats concurrently (the &self operations) against the quiescent store; each call must return the answer of the model. Non-trivial: sequences in which at least one merge or failing callback occurs; distinct by sequence hash.", a)));
+    rep.note("rule", json!(format!("two workloads. (1) exhaustive: every operation sequence of length <= L over a small alphabet of {} operations (ids 1..3, classes 0..1, two observation values, poison observations that make optimize fail, owned / external / non-blocking merges incl. same-track and missing ids, fetch, lookup, find_usable, clear), shards 1 and 2; L = 2 in the quick tier plus a random sample of length-3 sequences, L = 3 complete in the thorough tier. (2) random sequences of 50..400 operations over 8 ids (in half of the sequences mapped injectively onto wide u64 ids: 2^32+x, x<<32|x, hashed, u64::MAX-x, x<<33), 3 classes, shards 1..5. After EVERY operation the return value is compared with a sequential model (a map id -> track whose callbacks are the workload's own) and every shard's contents are read through get_store() and compared track by track (attributes, observations per class, merge history, metric state): every track of the model must be found, unchanged, in the shard get_store(id) hands out, that shard must hold no track the model does not know, and the per-shard counts must sum to the model's size (which shard an id maps to is left to the store). add() on a missing id is additionally compared with new_track(id)...build() + add_track in a scratch store. In the random sequences every ~40th step four threads issue lookup (all query kinds) / shard_stats concurrently (the &self operations) against the quiescent store; each call must return the answer of the model. Non-trivial: sequences in which at least one merge or failing callback occurs; distinct by sequence hash.", a)));
     rep.note("assumptions", json!(["workload callbacks are deterministic functions of their arguments (data-driven failures)", "merge_external_noblock: the result is awaited before the next operation, or the future is dropped at once and a blocking lookup serves as barrier"]));
     // ---------- exhaustive part
     let full3 = cli.thorough() && !cli.small;
